@@ -8,6 +8,15 @@
  * and netbuf_write.c are included as source so that the registrations they hold can be read off at every
  * wait (L2 "res=": live blocks of http.c's own / all live blocks of the library / outstanding connect +
  * read-wait + write registrations, compared with Model/HttpRes.lean).
+ *
+ * -DHC_BLACKBOX (vlib's fallback when the white-box build does not compile against the tree): nothing of the library is
+ * included as source; http.c, netbuf_read.c and netbuf_write.c are compiled separately (bb_srcs) and only http.h, netbuf.h,
+ * events.h, network.h and sock*.h are used.  The waits of http.c are still seen (cancellation points "opt ... <k>"), now
+ * through the linker: --wrap=netbuf_read_wait sends the calls which http.o makes to the public netbuf_read_wait() to
+ * __wrap_netbuf_read_wait() below.  The L1 part is the same (all of it is observed by the harness itself: the callback, the
+ * scripted peer, the allocator / descriptor counters, the registrations seen by poll()); the L2 part (wait lengths, own /
+ * total / registration counts at every wait: members of struct http_cookie, netbuf_read, netbuf_write) is not printed.
+ * No library state is reset between cases in either build (the warm-up fills the pools once), so cases share a process.
  */
 #include <sys/types.h>
 #include <sys/socket.h>
@@ -22,6 +31,9 @@
 #include "hcommon.h"
 
 #include "events.h"
+#ifdef HC_BLACKBOX
+#include "http.h"
+#endif
 #include "netbuf.h"
 #include "network.h"
 #include "sock.h"
@@ -269,9 +281,11 @@ __wrap_send(int s, const void * buf, size_t len, int flags)
 	return ((ssize_t)n);
 }
 
+#ifndef HC_BLACKBOX
 /* --- netbuf, white box (the registrations it holds) ----------------------------------------- */
 #include "netbuf_read.c"
 #include "netbuf_write.c"
+#endif
 
 /* --- http.c, with its waits observed ------------------------------------------------------ */
 #define MAXWAITS (1 << 20)
@@ -280,6 +294,7 @@ static size_t nwaits;
 static int cancel_pending;
 static long hh_live0;			/* live blocks when the request started */
 
+#ifndef HC_BLACKBOX
 /* run-length encoded trace of own/total/regs at every wait */
 static char * rtrace = NULL;
 static size_t rtrace_len, rtrace_cap;
@@ -328,9 +343,22 @@ rt_add(long own, long total, long regs)
 
 struct http_cookie;
 static void hh_snapshot(struct http_cookie *);
+#define HH_SNAPSHOT(c)	hh_snapshot(c)
+#define HH_WAIT		hh_netbuf_read_wait
+#define HH_REALWAIT	netbuf_read_wait
+#define HH_STATIC	static
+#else
+/* http.o's calls of netbuf_read_wait() arrive here (--wrap=netbuf_read_wait) */
+int __real_netbuf_read_wait(struct netbuf_read *, size_t, int (*)(void *, int), void *);
+int __wrap_netbuf_read_wait(struct netbuf_read *, size_t, int (*)(void *, int), void *);
+#define HH_SNAPSHOT(c)	do { } while (0)
+#define HH_WAIT		__wrap_netbuf_read_wait
+#define HH_REALWAIT	__real_netbuf_read_wait
+#define HH_STATIC
+#endif
 
-static int
-hh_netbuf_read_wait(struct netbuf_read * R, size_t len, int (* cb)(void *, int), void * cookie)
+HH_STATIC int
+HH_WAIT(struct netbuf_read * R, size_t len, int (* cb)(void *, int), void * cookie)
 {
 	int rc;
 
@@ -341,8 +369,8 @@ hh_netbuf_read_wait(struct netbuf_read * R, size_t len, int (* cb)(void *, int),
 		cancel_pending = 1;
 		events_interrupt();
 	}
-	rc = netbuf_read_wait(R, len, cb, cookie);
-	hh_snapshot(cookie);
+	rc = HH_REALWAIT(R, len, cb, cookie);
+	HH_SNAPSHOT(cookie);
 	return (rc);
 }
 
@@ -357,6 +385,7 @@ hh_recv_hook(void)
 	}
 }
 
+#ifndef HC_BLACKBOX
 #define netbuf_read_wait hh_netbuf_read_wait
 #include "http.c"
 #undef netbuf_read_wait
@@ -375,6 +404,7 @@ hh_snapshot(struct http_cookie * H)
 		regs++;
 	rt_add(own, hh_live - hh_live0, regs);
 }
+#endif
 
 /* --- the caller -------------------------------------------------------------------------- */
 static int ncb;
@@ -576,8 +606,10 @@ run_case(int generic)
 	nsockets = 0;
 	nwaits = 0;
 	nrecv = 0;
+#ifndef HC_BLACKBOX
 	rtrace_len = 0;
 	rt_n = 0;
+#endif
 	cancel_pending = 0;
 	stuck = 0;
 	ncb = 0;
@@ -659,6 +691,7 @@ run_case(int generic)
 	else
 		hc_puthex(sent, sentlen);
 	printf(" live=%ld fds=%d regs=%d", live1 - live0, fds_open - fds0, regs_end);
+#ifndef HC_BLACKBOX
 	if (!generic) {
 		printf(" | waits=");
 		if (nwaits == 0)
@@ -668,6 +701,7 @@ run_case(int generic)
 		rt_flush();
 		printf(" res=%s", rtrace_len ? rtrace : "-");
 	}
+#endif
 	if (ncb >= 1 && got_resp) {
 		for (i = 0; i < r_nh; i++) {
 			__real_free(r_names[i]);
